@@ -484,10 +484,18 @@ def drv():
     return _DRV
 
 
-def toml_of(fil):
+def toml_of(fil, tables=False):
     q = lambda s: '"%s"' % s
-    return "[swift]\nprefix = %s\n[kotlin]\nprefix = %s\npackage = %s\nmodule_name = %s\n[scala]\npackage = %s\nmodule_name = %s\n[go]\npackage = %s\n" % tuple(
+    t = {"swift": "", "kotlin": "", "go": "", "ts": ""}
+    if tables:   # the file-only settings case_override puts into the configuration
+        t = {"swift": 'default_decorators = ["Equatable"]\ntype_mappings = { Url = "string" }\n', "kotlin": 'type_mappings = { A = "B" }\n',
+             "go": 'uppercase_acronyms = ["ID"]\nno_pointer_slice = true\n', "ts": '[typescript]\ntype_mappings = { D = "Date" }\n'}
+    return ("[swift]\nprefix = %s\n" + t["swift"] + "[kotlin]\nprefix = %s\npackage = %s\nmodule_name = %s\n" + t["kotlin"] + "[scala]\npackage = %s\nmodule_name = %s\n[go]\npackage = %s\n" + t["go"] + t["ts"]) % tuple(
         q(fil[k]) for k in ("swift_prefix", "kotlin_prefix", "java_package", "kotlin_module_name", "scala_package", "scala_module_name", "go_package"))
+
+
+FILE_ONLY = [("swift", "type_mappings", {"Url": "string"}), ("swift", "default_decorators", ["Equatable"]), ("kotlin", "type_mappings", {"A": "B"}),
+             ("go", "uppercase_acronyms", ["ID"]), ("go", "no_pointer_slice", True), ("typescript", "type_mappings", {"D": "Date"})]
 
 
 def argv_of(lang, present, cli):
@@ -513,6 +521,15 @@ def native_cli(gname, case, v):
             if v["kind"] != "wrong-effective-value":
                 cli = {o[0]: "" if cl == 0 else "c" * cl for o in OPTIONS}
                 fil = {o[0]: "" if fl == 0 else "f" * fl for o in OPTIONS}
+                if v["kind"] == "table-changed":
+                    r = drv().ask({"op": "override", "toml": toml_of(fil, tables=True), "argv": argv_of(lang, present, cli)})
+                    payload = {"op": "override-tables", "lang": lang, "present": list(present), "cli": cli, "file": fil}
+                    if "ok" not in r:
+                        return False, "real code answers %s" % (str(r)[:200],), None
+                    lost = [(sec, fld, r["ok"].get(sec, {}).get(fld)) for sec, fld, want in FILE_ONLY if r["ok"].get(sec, {}).get(fld) != want]
+                    if lost:
+                        return True, "typeshare %s with file-only settings in typeshare.toml: %s no longer as written in the file (effective: %s)" % (" ".join(argv_of(lang, present, cli)[1:]), ["%s.%s" % (a, b) for a, b, _ in lost], [c for _, _, c in lost]), payload
+                    return False, "real code keeps the file-only tables", None
                 r = real_effective(lang, present, cli, fil)
                 eff_go = cli["go_package"] if present[-1] else fil["go_package"]
                 should_reject = lang == "Go" and eff_go == ""
@@ -664,6 +681,9 @@ def replay(body):
             else:
                 r = real_effective(c["lang"], c["present"], c["cli"], c["file"])
                 ok, why = (("rejected" in r) != (c["expect"] == "rejected")), str(r)
+        elif c["op"] == "override-tables":
+            cl = len(next(iter(c["cli"].values()))); fl = len(next(iter(c["file"].values())))
+            ok, why, _ = native_cli("override", (c["lang"], tuple(c["present"]), cl, fl), {"kind": "table-changed"})
         elif c["op"] == "roundtrip":
             r = drv().ask({"op": "roundtrip", "toml": c["toml"], "dir": d})
             ok, why = ("ok" in r and not r["ok"]["same"]), str(r)[:400]
